@@ -17,11 +17,14 @@ import types
 
 SCALAR = {"int": "int", "str": "str", "float": "float", "bool": "bool", "opt_int": "Optional[int]",
           "opt_str": "Optional[str]", "enum": "Color", "opt_enum": "Optional[Color]", "datetime": "datetime",
-          "list_int": "List[int]", "set_str": "Set[str]", "list_str": "List[str]"}
+          "list_int": "List[int]", "set_str": "Set[str]", "list_str": "List[str]",
+          "opt_datetime": "Optional[datetime]", "ext_enum": "HTTPStatus", "opt_ext_enum": "Optional[HTTPStatus]",
+          "opt_float": "Optional[float]", "opt_bool": "Optional[bool]"}
 DEFAULT = {"int": "0", "str": "''", "float": "0.0", "bool": "False", "opt_int": "None", "opt_str": "None",
            "enum": "Color.RED", "opt_enum": "None", "datetime": "field(default_factory=lambda: datetime(2020, 1, 1))",
            "list_int": "field(default_factory=list)", "set_str": "field(default_factory=set)",
            "list_str": "field(default_factory=list)",
+           "opt_datetime": "None", "ext_enum": "HTTPStatus.OK", "opt_ext_enum": "None", "opt_float": "None", "opt_bool": "None",
            "ref": "None", "opt_ref": "None", "list_ref": "field(default_factory=list)",
            "set_ref": "field(default_factory=set)", "seq_ref": "field(default_factory=list)", "type_ref": "None"}
 REL = {"ref": "{t}", "opt_ref": "Optional[{t}]", "list_ref": "List[{t}]", "set_ref": "Set[{t}]",
@@ -53,6 +56,7 @@ def source(model, extra_header=""):
     if future:
         lines.append("from __future__ import annotations")
     lines += ["from dataclasses import dataclass, field", "from datetime import datetime", "from enum import Enum",
+              "from http import HTTPStatus",
               "from typing import List, Optional, Set, Sequence, Type", extra_header, "",
               "class Color(Enum):", "    RED = 1", "    BLUE = 2", ""]
     declared = set()
